@@ -685,6 +685,13 @@ func TestC17HandlerFormat(t *testing.T) {
 			if r := e.Deliver(longer); r.OK() {
 				rt.Fatalf("C17 violated: a claim whose proof list continues past the committed root (it folds to another value under the published rule) was accepted: seq=%d leaf %d of %d, %d proof items", tu.Seq, i, n, len(longer.WithdrawalProofs))
 			}
+			// the same claim for 2^64 more: the commitment format has 64 bits for the amount, nothing wider verifies
+			wider := claimMsg(sub.Str, tu, o, 1, i)
+			two64, _ := math.NewIntFromString("18446744073709551616")
+			wider.Amount.Amount = wider.Amount.Amount.Add(two64)
+			if r := e.Deliver(wider); r.OK() {
+				rt.Fatalf("C17 violated: a claim for %s was accepted with the proof of a withdrawal of %d (the amount is committed as a 64-bit number)", wider.Amount, tu.Amount)
+			}
 			r := e.Deliver(claimMsg(sub.Str, tu, o, 1, i))
 			if !r.OK() {
 				rt.Fatalf("C17 violated: a claim whose commitment was computed by the published format over the message's own fields is rejected: %v\n  withdrawal: seq=%d from=%q to=%q amount=%d%s (leaf %d of %d)", r.Err, tu.Seq, truncStr(tu.From, 40), tu.To, tu.Amount, tu.Denom, i, n)
